@@ -1016,6 +1016,8 @@ def _exec_c17(trace, res):
     import hashlib
     res.sig_parts.append("final:" + hashlib.sha256(snap.canon_deep(fin).encode()).hexdigest()[:12])
     res.log.add("final", hashlib.sha256(snap.canon_deep(fin).encode()).hexdigest())
+    if not any(v.sig.startswith("C17/raised") for v in res.violations):
+        res.final_state = hashlib.sha256(snap.canon_deep(fin).encode()).hexdigest()
 
 
 def _apply_fuse_to_state(state, jt):
